@@ -69,55 +69,70 @@ Print Assumptions C20_io_failure_after_truncation_loses_file.
 
 (* refusal: fresh input (not a .json), the output directory exists, and some entry is neither the input
    directory nor the log file (= the very path given with --logfile): AntismashInputError and the listing is
-   unchanged.  Guard: every entry is visible to glob "*", the directory name is not itself a glob pattern, and
-   it is not the case that no log file was asked for while the current directory is an entry *)
+   unchanged.  No guard any more: the entries may be hidden (names starting with a dot), the directory name may
+   contain glob metacharacters (dmeta), the current directory may be anywhere - the three classes that used to
+   be excluded (FC20a, FC20b, FC20c) are repaired in the code *)
 Theorem C20_refuse : forall v dmeta entries,
-  dir_guard v dmeta entries = true -> existsb (foreign v) entries = true ->
+  existsb (foreign v) entries = true ->
   prepare_output_directory v 1 false dmeta entries = (Err E_Input, 1, entries).
 Proof. exact refuse_fresh. Qed.
 Print Assumptions C20_refuse.
 
 (* the log-file exemption is exact: an entry escapes the emptiness test iff it is the input directory or
-   its absolute path equals the absolute path of config.logfile - a base name is not enough *)
+   a log file was asked for and its absolute path equals the absolute path of config.logfile - a base name is
+   not enough, and without --logfile nothing is taken for the log file *)
 Theorem C20_log_exemption_exact : forall v e,
   ignore_patterns v e = false <->
-  (en_input e = true /\ en_isdir e = true) \/ entry_path e = abspath_logfile v.
+  (en_input e = true /\ en_isdir e = true) \/ (lg_given v = true /\ entry_path e = lg_path v).
 Proof. exact ignore_exact. Qed.
 Print Assumptions C20_log_exemption_exact.
 
-(* --logfile points somewhere else (not directly into the output directory): every visible entry other than
-   the input directory makes the run refuse, whatever the entry is called - in particular a file or
-   directory that merely has the log file's name *)
-Theorem C20_refuse_log_elsewhere : forall v entries,
+(* --logfile points somewhere else (not directly into the output directory): every entry other than the
+   input directory makes the run refuse, whatever the entry is called - in particular a file or directory
+   that merely has the log file's name *)
+Theorem C20_refuse_log_elsewhere : forall v dmeta entries,
   lg_given v = true -> p_dir (lg_path v) <> 0 ->
-  forallb en_visible entries = true ->
   existsb (fun e => negb (en_input e && en_isdir e)) entries = true ->
-  prepare_output_directory v 1 false false entries = (Err E_Input, 1, entries).
+  prepare_output_directory v 1 false dmeta entries = (Err E_Input, 1, entries).
 Proof. exact refuse_log_elsewhere. Qed.
 Print Assumptions C20_refuse_log_elsewhere.
 
-(* outside the guard the statement is false of the code: a foreign dot file is not seen ... *)
-Theorem C20_refuse_hidden_refuted :
-  exists entries, existsb (foreign env_nolog) entries = true /\
-                  prepare_output_directory env_nolog 1 false false entries = (Ok tt, 1, entries).
-Proof. exact refuse_hidden_refuted. Qed.
-Print Assumptions C20_refuse_hidden_refuted.
+(* the three formerly refuted classes, now positive statements (the repaired defects FC20a/b/c):
+   a foreign entry whose name starts with a dot is seen (os.listdir instead of glob "*") ... *)
+Theorem C20_refuse_hidden : forall v dmeta entries e,
+  In e entries -> en_visible e = false -> foreign v e = true ->
+  prepare_output_directory v 1 false dmeta entries = (Err E_Input, 1, entries).
+Proof. exact refuse_hidden. Qed.
+Print Assumptions C20_refuse_hidden.
 
-(* ... a directory whose name contains glob metacharacters looks empty ... *)
-Theorem C20_refuse_globname_refuted :
-  exists entries, existsb (foreign env_nolog) entries = true /\ forallb en_visible entries = true /\
-                  prepare_output_directory env_nolog 1 false true entries = (Ok tt, 1, entries).
-Proof. exact refuse_globname_refuted. Qed.
-Print Assumptions C20_refuse_globname_refuted.
+(* ... a directory whose name contains glob metacharacters is refused like any other, and in every mode it is
+   treated exactly like the same directory under a plain name (so in reuse mode its stale region files go,
+   see C20_accept_removes_region_files) ... *)
+Theorem C20_refuse_globname : forall v entries,
+  existsb (foreign v) entries = true ->
+  prepare_output_directory v 1 false true entries = (Err E_Input, 1, entries).
+Proof. exact refuse_globname. Qed.
+Print Assumptions C20_refuse_globname.
 
-(* ... and with the default empty logfile os.path.abspath("") is the current directory, so a (visible,
-   foreign) sub-directory of the output directory that happens to be the current directory is exempted *)
-Theorem C20_refuse_cwd_refuted :
-  exists v entries, lg_given v = false /\ existsb (foreign v) entries = true /\
-                    forallb en_visible entries = true /\
-                    prepare_output_directory v 1 false false entries = (Ok tt, 1, entries).
-Proof. exact refuse_cwd_refuted. Qed.
-Print Assumptions C20_refuse_cwd_refuted.
+Theorem C20_globname_irrelevant : forall v kind reuse dmeta entries,
+  prepare_output_directory v kind reuse dmeta entries = prepare_output_directory v kind reuse false entries.
+Proof. exact globname_irrelevant. Qed.
+Print Assumptions C20_globname_irrelevant.
+
+(* ... and without --logfile every entry other than the input directory makes the run refuse, wherever the
+   current directory is - also when it is that very entry; the current directory plays no part at all *)
+Theorem C20_refuse_cwd : forall v dmeta entries,
+  lg_given v = false ->
+  existsb (fun e => negb (en_input e && en_isdir e)) entries = true ->
+  prepare_output_directory v 1 false dmeta entries = (Err E_Input, 1, entries).
+Proof. exact refuse_nolog. Qed.
+Print Assumptions C20_refuse_cwd.
+
+Theorem C20_cwd_irrelevant : forall g lp c1 c2 kind reuse dmeta entries,
+  prepare_output_directory (mkEnv g lp c1) kind reuse dmeta entries =
+  prepare_output_directory (mkEnv g lp c2) kind reuse dmeta entries.
+Proof. exact cwd_irrelevant. Qed.
+Print Assumptions C20_cwd_irrelevant.
 
 (* in every mode and whatever the outcome (accepted, refused, os.remove failing half way): nothing is added
    to an existing directory and only entries matched by "*.region???.gbk" can disappear *)
@@ -130,13 +145,14 @@ Proof. exact prepare_only_removes_region. Qed.
 Print Assumptions C20_only_region_files_removed.
 
 (* an accepted directory (reuse mode with any content, or fresh mode with nothing foreign), all entries
-   visible, no directory named like a region file: success, and exactly the region GenBank files go *)
-Theorem C20_accept_removes_region_files : forall v reuse entries,
+   visible, no directory named like a region file, whatever the directory is called: success, and exactly the
+   region GenBank files go *)
+Theorem C20_accept_removes_region_files : forall v reuse dmeta entries,
   NoDup (ids entries) ->
   forallb en_visible entries = true ->
   (reuse = true \/ existsb (foreign v) entries = false) ->
   forallb (fun e => negb (en_region e && en_isdir e)) entries = true ->
-  prepare_output_directory v 1 reuse false entries =
+  prepare_output_directory v 1 reuse dmeta entries =
   (Ok tt, 1, filter (fun e => negb (en_region e)) entries).
 Proof. exact prepare_accept. Qed.
 Print Assumptions C20_accept_removes_region_files.
@@ -200,11 +216,11 @@ Proof. exact run_antismash_refused. Qed.
 Print Assumptions C20_pipeline_stops_at_refusal.
 
 (* the second clause of the property for the whole run: fresh input, existing directory with foreign content
-   (inside the guard of C20_refuse), ANY plan: the run does not succeed, listing, JSON target and log are
-   untouched, nothing after prepare_output_directory happens *)
+   (any content, any directory name, any current directory), ANY plan: the run does not succeed, listing, JSON
+   target and log are untouched, nothing after prepare_output_directory happens *)
 Theorem C20_pipeline_foreign_directory_untouched :
   forall pl v dmeta entries records results hk w w' r kd es,
-  dir_guard v dmeta entries = true -> existsb (foreign v) entries = true ->
+  existsb (foreign v) entries = true ->
   run_antismash pl v 1 false dmeta entries records results hk w = (w', r, kd, es) ->
   r <> Ok 0 /\ kd = 1 /\ es = entries /\ w_file w' = w_file w /\ w_log w' = w_log w /\
   exists pre, w_trace w' = w_trace w ++ pre /\ Forall (stage_ev 20 23 (cstate (w_file w))) pre.
@@ -249,22 +265,44 @@ Example C20_ex_refuse :
   let v := mkEnv true (mkP 0 1) (mkP 9 99) in
   let entries := [mkE 0 0 true true true false; mkE 1 1 true false false false;
                   mkE 2 2 true false false false] in
-  dir_guard v false entries = true /\ existsb (foreign v) entries = true /\ NoDup (ids entries) /\
+  existsb (foreign v) entries = true /\ NoDup (ids entries) /\
   map (foreign v) entries = [false; false; true].
 Proof.
-  split; [reflexivity|]. split; [reflexivity|]. split; [|reflexivity].
+  split; [reflexivity|]. split; [|reflexivity].
   repeat constructor; cbn; intuition discriminate.
 Qed.
+
+(* the witnesses of the repaired defects meet the hypotheses of C20_refuse and are refused: a directory holding
+   only a dot file (FC20a); a directory with a glob-pattern name holding one file (FC20b); no --logfile, the
+   only entry is the sub-directory (name 7) that is the current directory (FC20c) *)
+Example C20_ex_repaired_witnesses :
+  let hidden := [mkE 0 0 false false false false] in
+  let plain := [mkE 0 0 true false false false] in
+  let v := mkEnv false (mkP 9 0) (mkP 0 7) in
+  let sub := [mkE 0 7 true false true false] in
+  (existsb (foreign env_nolog) hidden = true /\
+   prepare_output_directory env_nolog 1 false false hidden = (Err E_Input, 1, hidden)) /\
+  (existsb (foreign env_nolog) plain = true /\
+   prepare_output_directory env_nolog 1 false true plain = (Err E_Input, 1, plain)) /\
+  (existsb (foreign v) sub = true /\ entry_path (mkE 0 7 true false true false) = cwd v /\
+   prepare_output_directory v 1 false false sub = (Err E_Input, 1, sub)).
+Proof. repeat split; reflexivity. Qed.
+
+(* reuse mode in a directory whose name is a glob pattern: the stale region file is removed (FC20b, second half) *)
+Example C20_ex_reuse_globname :
+  let entries := [mkE 0 0 true false false true; mkE 1 1 true false false false] in
+  prepare_output_directory env_nolog 1 true true entries = (Ok tt, 1, [mkE 1 1 true false false false]).
+Proof. reflexivity. Qed.
 
 (* --logfile logs/run.log (directory 9, name 1) while the output directory holds the input copy and a file
    that is also called run.log: the hypotheses of C20_refuse_log_elsewhere hold - refused *)
 Example C20_ex_same_name_elsewhere :
   let v := mkEnv true (mkP 9 1) (mkP 9 99) in
   let entries := [mkE 0 0 true true true false; mkE 1 1 true false false false] in
-  lg_given v = true /\ p_dir (lg_path v) <> 0 /\ forallb en_visible entries = true /\
+  lg_given v = true /\ p_dir (lg_path v) <> 0 /\
   existsb (fun e => negb (en_input e && en_isdir e)) entries = true /\
   prepare_output_directory v 1 false false entries = (Err E_Input, 1, entries).
-Proof. split; [reflexivity|]. split; [discriminate|]. split; [reflexivity|]. split; reflexivity. Qed.
+Proof. split; [reflexivity|]. split; [discriminate|]. split; reflexivity. Qed.
 
 (* the same directory with --logfile out/run.log is accepted: nothing foreign *)
 Example C20_ex_log_inside_accepted :
@@ -320,10 +358,10 @@ Proof. vm_compute. reflexivity. Qed.
 Example C20_ex_pipeline_refused :
   let pl := mkPP 0 true 0 0 [mkRP false 0 true 0] 0 0 false in
   let entries := [mkE 0 0 true false false false; mkE 1 1 true false false true; mkE 2 2 true false false false] in
-  dir_guard env_nolog false entries = true /\ existsb (foreign env_nolog) entries = true /\
+  existsb (foreign env_nolog) entries = true /\
   run_antismash pl env_nolog 1 false false entries [mkR 0 0 0 0 false] [[mkM 2 0 11 0]] 0 (initial_world 0) =
   (mkW COld 0 [mkEv 20 0 0 1; mkEv 21 0 0 1; mkEv 22 0 0 1; mkEv 23 0 0 1], Err E_Input, 1, entries).
-Proof. split; [reflexivity|]. split; [reflexivity|]. vm_compute. reflexivity. Qed.
+Proof. split; [reflexivity|]. vm_compute. reflexivity. Qed.
 
 (* a failing conversion in the middle of a run reusing the results in the output directory (second record's
    module raises KeyError; the second record is skipped by the analysis but still converted): the old JSON stays,
